@@ -70,8 +70,8 @@ def split_expected(tokens):
     meta = {}
     i = 0
     toks = list(tokens)
-    while i + 1 < len(toks) and toks[i].endswith(":") and toks[i][:-1] in META_KEYS and toks[i + 1].startswith("zm"):
-        meta[toks[i][:-1]] = toks[i + 1]
+    while i + 1 < len(toks) and toks[i].endswith(":") and toks[i][:-1].lower() in META_KEYS and toks[i + 1].startswith("zm"):
+        meta[toks[i][:-1].lower()] = toks[i + 1]
         i += 2
     body = [t for t in docgrammar.tracer_seq(" ".join(toks[i:])) if t.startswith("zq")]
     return meta, body
